@@ -37,6 +37,17 @@ fn held_family(thorough: bool) -> Vec<Scenario> {
                         if batch && first == 1 {
                             continue;
                         }
+                        // quick tier: every edit kind and both release orders on one worker thread
+                        // for the non-empty start pattern; the rebuilding edits elsewhere
+                        if !thorough {
+                            let rebuilds = matches!(edit, Some("b") | Some(""));
+                            if (pool == 2 || p0.is_empty()) && !rebuilds {
+                                continue;
+                            }
+                            if pool == 2 && p0.is_empty() {
+                                continue;
+                            }
+                        }
                         let mut u = vec![UOp::Reparse(0, p0), UOp::Tick, UOp::Release(first)];
                         if let Some(e) = edit {
                             u.push(UOp::Reparse(0, e));
@@ -116,7 +127,7 @@ pub fn scenarios(prop: &str, thorough: bool) -> Vec<Scenario> {
                     for i2 in 0..2 {
                         // quick tier: the batch writer (two reservations in flight) on every edit
                         // kind for one worker thread, the rescoring edits for two
-                        if !thorough && (i2 == 0 || (pool == 2 && xi != 2 && xi != 3)) {
+                        if !thorough && (i2 == 0 || (pool == 2 && xi != 2) || (pool == 1 && xi == 0)) {
                             continue;
                         }
                         let mut u = vec![UOp::Reparse(0, "a"), UOp::Tick];
@@ -718,15 +729,20 @@ pub fn child(prop: &str, tier: &str, shard: usize, nshards: usize) -> ! {
     let mut acc = ChildAcc::default();
     // Few heavy scenarios: every child works on every scenario, on its share of the subtrees
     // below the root execution. Many light scenarios: the scenarios themselves are dealt out.
-    let by_scenario = scns.len() >= 4 * nshards;
-    for (si, scn) in scns.iter().enumerate() {
-        let (shard, nshards) = if by_scenario {
-            if si % nshards != shard {
+    let many = scns.len() >= 4 * nshards;
+    let mut light_no = 0usize;
+    for scn in scns.iter() {
+        // heavy scenarios (explored with preemptions, or with held writers and their many free
+        // choices) are split by subtree over all children, light ones are dealt out whole
+        let heavy = scn.bound >= 1 || scn.name.starts_with("H/") || !many;
+        let (shard, nshards) = if heavy {
+            (shard, nshards)
+        } else {
+            light_no += 1;
+            if light_no % nshards != shard {
                 continue;
             }
             (0, 1)
-        } else {
-            (shard, nshards)
         };
         if shard == 0 {
             acc.scenarios += 1;
@@ -781,7 +797,17 @@ pub fn collect(prop: &str, tier: &str, rep: &mut Report) {
             .map(|sh| {
                 let exe = exe.clone();
                 s.spawn(move || {
-                    std::process::Command::new(&exe)
+                    // one core per child: the threads of an execution are serialised anyway, and
+                    // hand-overs between threads on the same core are much cheaper
+                    let ncpu = std::thread::available_parallelism().map(|n| n.get()).unwrap_or(1);
+                    let mut cmd = if std::path::Path::new("/usr/bin/taskset").exists() {
+                        let mut c = std::process::Command::new("/usr/bin/taskset");
+                        c.arg("-c").arg((sh % ncpu).to_string()).arg(&exe);
+                        c
+                    } else {
+                        std::process::Command::new(&exe)
+                    };
+                    cmd
                         .env("E2_CURRENT_FILE", cur_dir.join(format!("current-{prop}-{sh}.json")))
                         .env("MALLOC_MMAP_THRESHOLD_", "8388608")
                         .env("MALLOC_TRIM_THRESHOLD_", "536870912")
